@@ -272,3 +272,13 @@ def server_chan_close(tr, rr, sig):
             if t[0] == "send" and t[1] == c.label and g and g[0] == "send sent":
                 return ("a submission through handle %s was accepted after the server closed its channel %d" % (c.label, c.ch), sig)
     return None
+
+
+def compliant_frame_rejected(case, il, sl, sig):
+    """A frame the reference dispatch table accepts must not end the connection (whatever state the
+    client-side ends of its queues are in)."""
+    from props import c07
+    v = c07.monitor(case, il, sl)
+    if v and v[1] == "c07-table" and v[0].startswith("legal frame"):
+        return (v[0] + ": a compliant frame ended the connection", sig)
+    return None
